@@ -16,10 +16,16 @@ class OkLaws (spec layer constr : outParam String) (ok : S → Bool) : Prop wher
   accepts : ∀ s, WF layer s → Supported spec constr layer s → ok s = true
   rejects : ∀ s, ok s = true → Supported spec constr layer s
 
-theorem wf1 {s : S} (h : WF "Conv1d" s) : s.kernel_size.length = 1 ∧ s.output_shape.length = 3 := by
+theorem wf1' {s : S} (h : WF "Conv1d" s) :
+    s.kernel_size.length = 1 ∧ s.output_shape.length = 3 ∧ s.groups ≠ 0 := by
   simpa [WF] using h
-theorem wf2 {s : S} (h : WF "Conv2d" s) : s.kernel_size.length = 2 ∧ s.output_shape.length = 4 := by
+theorem wf2' {s : S} (h : WF "Conv2d" s) :
+    s.kernel_size.length = 2 ∧ s.output_shape.length = 4 ∧ s.groups ≠ 0 := by
   simpa [WF] using h
+theorem wf1 {s : S} (h : WF "Conv1d" s) : s.kernel_size.length = 1 ∧ s.output_shape.length = 3 :=
+  ⟨(wf1' h).1, (wf1' h).2.1⟩
+theorem wf2 {s : S} (h : WF "Conv2d" s) : s.kernel_size.length = 2 ∧ s.output_shape.length = 4 :=
+  ⟨(wf2' h).1, (wf2' h).2.1⟩
 theorem wfl {s : S} (h : WF "Linear" s) : s.output_shape.length = 2 := by
   simpa [WF] using h
 
@@ -30,11 +36,11 @@ macro "ok_free" "[" ds:simpLemma,* "]" : tactic => `(tactic| (
   · intro s hwf _
     first
       | (have hwf1 : WF "Conv1d" s := hwf
-         obtain ⟨hk, ho⟩ := wf1 hwf1
-         simp [$ds,*, hk, ho])
+         obtain ⟨hk, ho, hg⟩ := wf1' hwf1
+         simp [$ds,*, hk, ho, hg, CostNum.nz_rat])
       | (have hwf2 : WF "Conv2d" s := hwf
-         obtain ⟨hk, ho⟩ := wf2 hwf2
-         simp [$ds,*, hk, ho])
+         obtain ⟨hk, ho, hg⟩ := wf2' hwf2
+         simp [$ds,*, hk, ho, hg, CostNum.nz_rat])
       | (have hwfl : WF "Linear" s := hwf
          have ho := wfl hwfl
          simp [$ds,*, ho])
@@ -233,7 +239,7 @@ instance : OkLaws "diana_latency" "Linear" "" Gen.diana_latency._diana_latency_l
     refine OkLaws.accepts (spec := "diana_latency") (layer := "Conv2d") (constr := "") _ ?_ (supported_lin hs)
     have := wfl hwf
     simp only [WF, String.reduceEq, if_false, if_true]
-    exact ⟨rfl, by show (s.output_shape ++ [1, 1]).length = 4; simp [this]⟩
+    exact ⟨rfl, by show (s.output_shape ++ [1, 1]).length = 4; simp [this], by show (1 : ℚ) ≠ 0; norm_num⟩
   · intro s hok
     rw [diana_linear_ok] at hok
     have := OkLaws.rejects (spec := "diana_latency") (layer := "Conv2d") (constr := "") _ hok
@@ -338,6 +344,9 @@ theorem perGroup_channels {s : S} (hd : IsDw s) :
 theorem k_perGroup (s : S) (i : ℕ) : k (perGroup s) i = k s i := rfl
 theorem o_perGroup (s : S) (i : ℕ) : o (perGroup s) i = o s i := rfl
 theorem bias_perGroup (s : S) : bias (perGroup s) = bias s := rfl
+theorem perGroup_g (s : S) : (perGroup s).groups = 1 := rfl
+theorem perGroup_ic (s : S) : (perGroup s).in_channels = s.in_channels / s.groups := rfl
+theorem perGroup_oc (s : S) : (perGroup s).out_channels = s.out_channels / s.groups := rfl
 theorem perGroup_w (s : S) : (perGroup s).w_precision = s.w_precision := rfl
 theorem perGroup_ip (s : S) : (perGroup s).in_precision = s.in_precision := rfl
 
